@@ -193,9 +193,10 @@ class Functor:
         return functools.reduce(lambda x,y: x + y, [ v.variables for v in self.args ], [])
 
 class Clause:
-    def __init__(self,head,body):
+    def __init__(self,head,body,ctx=None):
         self.head = head
         self.body = body
+        self.ctx = ctx
     def __str__(self):
         return f'{self.head} :- {self.body}'
 
@@ -258,7 +259,7 @@ class YPPrologVisitor(prologVisitor):
             rhs = self.visitPredicateexpression(ctx.predicateexpression())
         else:
             rhs = TruePredicate()
-        c = Clause(lhs,rhs)
+        c = Clause(lhs,rhs,ctx)
         return c
 
     def visitPredicatelist(self,ctx):
